@@ -128,7 +128,7 @@ Section Recv.
   Proof.
     unfold memo_step, memo_untouched. intros H U k a.
     destruct (ip_memo p) as [| | |f v]; try (inversion H; subst; reflexivity); try discriminate.
-    destruct (negb (has_acct s1 _)); [discriminate|]. destruct (_ <? _); [discriminate|].
+    destruct (v <? 0); [discriminate|]. destruct (negb (has_acct s1 _)); [discriminate|]. destruct (_ <? _); [discriminate|].
     destruct f; inversion H; subst. cbn [ibal with_log with_bal with_acct].
     destruct U as [->|[U1 U2]].
     - rewrite !ladd_zero. reflexivity.
@@ -142,7 +142,7 @@ Section Recv.
   Proof.
     unfold memo_step. intros H.
     destruct (ip_memo p) as [| | |f v]; try (inversion H; subst; auto); try discriminate.
-    destruct (negb (has_acct s1 _)); [discriminate|]. destruct (_ <? _); [discriminate|].
+    destruct (v <? 0); [discriminate|]. destruct (negb (has_acct s1 _)); [discriminate|]. destruct (_ <? _); [discriminate|].
     destruct f; inversion H; subst. cbn. auto.
   Qed.
 
@@ -150,7 +150,7 @@ Section Recv.
     In (EvCall a) (ilog (written (memo_step isender p s1))) -> In (EvCall a) (ilog s1) \/ a = isender (ip_src p) (ip_sender p).
   Proof.
     unfold memo_step. destruct (ip_memo p) as [| | |f v]; cbn [written]; auto.
-    destruct (negb (has_acct s1 _)); cbn [written]; auto. destruct (_ <? _); cbn [written]; auto.
+    destruct (v <? 0); cbn [written]; auto. destruct (negb (has_acct s1 _)); cbn [written]; auto. destruct (_ <? _); cbn [written]; auto.
     destruct f; cbn [written ilog with_log with_bal with_acct]; intros Hin; apply in_app_or in Hin;
       (destruct Hin as [Hin|[E|[]]]; [auto|inversion E; auto]).
   Qed.
@@ -275,7 +275,7 @@ Section Recv.
     has_acct s1 from = true /\ v <= ibal s1 (from, AFx, 0) /\ f = false /\
     forall k, ibal c2 k = ladd (ladd (ibal s1) (from, AFx, 0) (- v)) (Callee, AFx, 0) v k.
   Proof.
-    unfold memo_step. intros -> H. cbn zeta.
+    unfold memo_step. intros -> H. cbn zeta. destruct (v <? 0); [discriminate|].
     destruct (has_acct s1 _) eqn:Ha; cbn [negb] in H; [|discriminate].
     destruct (Z.ltb_spec (ibal s1 (isender (ip_src p) (ip_sender p), AFx, 0)) v); [discriminate|].
     destruct f; inversion H; subst. split; [reflexivity|]. split; [lia|]. split; [reflexivity|]. intros k. reflexivity.
@@ -496,7 +496,7 @@ Section Runs.
     (in_rel (rel s) (p_chan pk) (p_seq pk) = false /\ same_proj s s') \/
     (exists t, In (p_chan pk, p_seq pk) (rel s) /\ rel s' = del_rel (rel s) (p_chan pk) (p_seq pk) /\
                nextseq s' = nextseq s /\ ilog s' = ilog s ++ [EvReconv (p_chan pk) (p_seq pk) (p_sender pk) t (p_amt pk)] /\
-               commits s' = commits s).
+               commits s' = commits s /\ sent s' = sent s).
   Proof.
     unfold refund. destruct (p_denom pk) as [|t|t| |t]; try discriminate; intros H.
     - apply bind_ok in H. destruct H as (s1 & P1 & H1). apply pay_proj in P1.
@@ -510,7 +510,7 @@ Section Runs.
       destruct SP as (R&N&L&C&S&PO&HA). rewrite R in H2.
       destruct (in_rel (rel s) _ _) eqn:E.
       + apply bind_ok in H2. destruct H2 as (s3 & P3 & H3). apply convert_coin_proj in P3.
-        destruct P3 as (R3&N3&L3&C3&_). inversion H3; subst s'. cbn [rel nextseq ilog commits with_rel with_log] in *.
+        destruct P3 as (R3&N3&L3&C3&S3&_). inversion H3; subst s'. cbn [rel nextseq ilog commits sent with_rel with_log] in *.
         right. exists t. split; [apply in_rel_In; exact E|]. repeat split; congruence.
       + inversion H2; subst. left. split; [reflexivity|]. repeat split; assumption.
     - destruct (pair_on s VoucherMeta).
@@ -530,21 +530,21 @@ Section Runs.
       destruct SP as (R&N&L&C&S&PO&HA). rewrite R in H3.
       destruct (in_rel (rel s) _ _) eqn:E.
       + apply bind_ok in H3. destruct H3 as (s4 & P4 & H4). apply convert_coin_proj in P4.
-        destruct P4 as (R4&N4&L4&C4&_). inversion H4; subst s'. cbn [rel nextseq ilog commits with_rel with_log] in *.
+        destruct P4 as (R4&N4&L4&C4&S4&_). inversion H4; subst s'. cbn [rel nextseq ilog commits sent with_rel with_log] in *.
         right. exists t. split; [apply in_rel_In; exact E|]. repeat split; congruence.
       + inversion H3; subst. left. split; [reflexivity|]. repeat split; assumption.
     - apply bind_ok in H. destruct H as (s1 & P1 & H1). apply pay_proj in P1.
       destruct P1 as (R&N&L&C&S&PO&HA). rewrite R in H1.
       destruct (in_rel (rel s) _ _) eqn:E.
       + apply bind_ok in H1. destruct H1 as (s2 & P2 & H2). apply convert_coin_proj in P2.
-        destruct P2 as (R2&N2&L2&C2&_). inversion H2; subst s'. cbn [rel nextseq ilog commits with_rel with_log] in *.
+        destruct P2 as (R2&N2&L2&C2&S2&_). inversion H2; subst s'. cbn [rel nextseq ilog commits sent with_rel with_log] in *.
         right. exists t. split; [apply in_rel_In; exact E|]. repeat split; congruence.
       + inversion H1; subst. left. split; [reflexivity|]. repeat split; assumption.
   Qed.
 
   Lemma refund_eff pk s s' : refund pk s = Ok s' -> eff s s'.
   Proof.
-    intros H. destruct (refund_shape _ _ _ H) as [[_ SP]|(t & Hin & R & N & L & _)].
+    intros H. destruct (refund_shape _ _ _ H) as [[_ SP]|(t & Hin & R & N & L & _ & _)].
     - apply eff_same_proj. exact SP.
     - eapply EffReconv; eauto. intros c'. rewrite N. reflexivity.
   Qed.
@@ -831,7 +831,7 @@ Section Exact.
   Proof.
     unfold memo_step. intros H.
     destruct (ip_memo p) as [| | |f v]; try (inversion H; subst; reflexivity); try discriminate.
-    destruct (negb (has_acct s1 _)); [discriminate|]. destruct (_ <? _); [discriminate|].
+    destruct (v <? 0); [discriminate|]. destruct (negb (has_acct s1 _)); [discriminate|]. destruct (_ <? _); [discriminate|].
     destruct f; inversion H; subst. reflexivity.
   Qed.
 
@@ -939,7 +939,7 @@ Section Exact.
     intros Hcb H.
     assert (Href : refund pk' x = Ok x' -> commits x' = commits x /\ nextseq x' = nextseq x /\
                    (rel x' = rel x \/ rel x' = del_rel (rel x) (p_chan pk') (p_seq pk'))).
-    { intros Hr. destruct (refund_shape _ _ _ Hr) as [[_ (R&N&_&C&_)]|(t & _ & R & N & _ & C)]; auto. }
+    { intros Hr. destruct (refund_shape _ _ _ Hr) as [[_ (R&N&_&C&_)]|(t & _ & R & N & _ & C & _)]; auto. }
     destruct Hcb as [->|[ok ->]]; [apply Href; exact H|].
     unfold on_ack in H. destruct ok; [|apply Href; exact H]. inversion H; subst. cbn. auto.
   Qed.
@@ -1134,7 +1134,7 @@ Section Exact.
     - destruct (refund pk (with_commits s (del_pk (commits s) c q))) as [x|x] eqn:E; cbn [fst]; [|reflexivity].
       split; [reflexivity|]. split.
       + pose proof (refund_removes _ _ _ E) as H. rewrite Hc, Hq in H. exact H.
-      + destruct (refund_shape _ _ _ E) as [[_ (_&_&_&C&_)]|(t & _ & _ & _ & _ & C)]; rewrite C; cbn [commits with_commits]; apply find_del_pk.
+      + destruct (refund_shape _ _ _ E) as [[_ (_&_&_&C&_)]|(t & _ & _ & _ & _ & C & _)]; rewrite C; cbn [commits with_commits]; apply find_del_pk.
   Qed.
 End Exact.
 
